@@ -84,11 +84,15 @@ theorem pagerActs_flush (pm : Meta) (bm : Nat) : PagerActs (flushA pm bm) := by
 
 theorem pagerActs_ensure (ps : PS) (pid : Nat) : PagerActs (ensureA ps pid).1 := by
   unfold ensureA
-  by_cases hg : ps.pm.nextPage ≤ pid <;> by_cases he : ps.len < pid + 1 <;> simp only [hg, he, if_true, if_false]
-  all_goals
-    apply PagerActs.append
-    · apply PagerActs.append <;> (intro a ha; simp at ha; try (subst ha; trivial))
-    · exact pagerActs_flush _ _
+  have hm : ∀ l : List Action, (∀ a ∈ l, (∃ u, a = memA u) ∨ (∃ n p, a = ioA (.pg (.setLen n) p))) → PagerActs l := by
+    intro l hl a ha
+    rcases hl a ha with ⟨u, rfl⟩ | ⟨n, p, rfl⟩ <;> trivial
+  apply PagerActs.append _ (pagerActs_flush _ _)
+  apply hm
+  intro a ha
+  by_cases hg : ps.pm.nextPage ≤ pid <;> by_cases he : ps.len < pid + 1 <;> simp [hg, he] at ha
+  all_goals (first | (rcases ha with rfl | rfl | rfl) | (rcases ha with rfl | rfl) | subst ha)
+  all_goals (first | exact Or.inl ⟨_, rfl⟩ | exact Or.inr ⟨_, _, rfl⟩)
 
 theorem pagerActs_alloc (ps : PS) : PagerActs (allocA ps).1 := by
   unfold allocA
@@ -140,7 +144,7 @@ theorem node_phase {cfg : Cfg} {T : List Tx} {cs : List CTx} {c k : Nat} {p0 : P
     (hsync : cfg.syncSlot = true) (fs : FS) (ps : PS) (id : IdSt) (xs rest : List Nat)
     (hq : WalQuiet fs) (hcom : committed (readAll fs.wf) = .ok cs) (hlog : LogOK T cs c) (hstore : StoreOK T cs p0)
     (hdrop : (allNodes T).drop k = xs ++ rest)
-    (hB : AllImgs fs (NG (allNodes T) c p0 k)) (hS : SyncedI fs ps.pm) (hpm : OKhdr c p0 k ps.pm)
+    (hB : AllImgs fs (NG (allNodes T) c p0 k)) (hS : SyncedI fs ps) (hpm : OKhdr c p0 k ps.pm)
     (hlen : ps.pm.i2eLen = k) (hidl : id.len = k) (hids : id.start = ps.pm.i2eStart)
     (hnp : 1 ≤ ps.pm.nextPage) (hck : c ≤ k) (hkN : k ≤ (allNodes T).length) (hbm : p0.bm ≤ ps.bm) :
     SafeAlong (SafeFS [T]) fs (ioSteps (nodesA cfg ps id xs).1) := by
